@@ -1238,7 +1238,13 @@ fn check(case: &Case, obs: &mut Obs) -> Result<(), Failure> {
                 observed.1 |= run.stats.branches > 0;
                 observed.2 |= run.stats.intrinsics > 0;
                 if let Some(f) = run.violation {
-                    if first.is_none() {
+                    // report the first violation; one that is not a recorded finding takes
+                    // precedence, so that a shallow known defect does not hide a new one
+                    let replace = match &first {
+                        None => true,
+                        Some(old) => obs.known(&old.sig) && !obs.known(&f.sig),
+                    };
+                    if replace {
                         first = Some(f);
                     }
                 }
